@@ -25,10 +25,16 @@ func init() {
 			"(largest n with C*k <= max, largest n with C <= max, max = 2^64-1 and 2^63-1) on both sides k and n-k, powers of two +-1 for k <= 3, seeded (n,k) concentrated around the thresholds; Coeffs(n) n <= 66; " +
 			"Unrank: all r below a bound for k <= 6 (8), +-2 around C(l,k) boundaries on a ladder of l up to MaxInt for k >= 3, seeded 63-bit ranks, k = 1, 2 only with <= 10^7 expected loop steps; " +
 			"Rank: seeded increasing sequences around the int boundary; CombinationsColex(n,k) n <= 12 position by position. " +
+			"Process state across calls: every judged Unrank result and Coeffs table of a unit is kept (the slice itself) and read again after the next calls, at checkpoints and at the end of the unit; " +
+			"at a checkpoint the caller overwrites every kept result with a marker of its own (results sharing memory read each other's marker) and the calls next to the last one (rank+1, same, rank-1; same table) are repeated; " +
+			"order of the calls as a dimension: windows of consecutive ranks (at 0, across C(l,k) boundaries on a ladder of l, at 63-bit ranks, at MaxInt) swept ascending, descending, each twice, zigzag, strided, outside-in, random with repeats, random walk, " +
+			"with one k, two k alternating / in blocks / another k between every pair, Rank (on the returned slice, through a reused buffer), Coeff, Coeffs called in between, the caller editing a result before the next call; " +
+			"complete tables of the k-subsets of {0..n-1} (n <= 9 (12)) filled ascending, descending, randomly, alternating k and n-k and verified afterwards; Coeffs(n) descending, repeated, random, with edited tables. " +
 			"non-trivial = binomial with n > 32 and 2 <= min(k,n-k) <= 33 (guard + multiplicative loop decide), Unrank/Rank with k >= 2 and rank > 0; distinct = hash of the arguments",
 		Assumptions: []string{
 			"oracle: math/big binomials by the exact multiplicative formula, cross-checked against additive Pascal rows, math/big.Binomial and published values; colex unrank by binary search on the monotone predicate C(l,j) <= m, cross-checked against the numeric order of bit masks (harness code, shares nothing with the library)",
 			"termination of Unrank is judged as bounded progress: the CPU budget of the engine (10^3 x the cost of any correct run of this workload)",
+			"a slice returned by Unrank or Coeffs belongs to the caller: later calls into the package do not write to it, no two results share memory, and what the caller writes into it does not influence later results (spare capacity beyond len is observed, not judged)",
 			"Unrank(r > 0, 0), negative ranks, negative or non-increasing Rank arguments, Coeff with n < 0 and Coeffs beyond n = 66 are not fixed by the documentation: observed, not judged",
 		},
 		Run:            run,
@@ -37,6 +43,17 @@ func init() {
 		RequiredObs: []string{
 			"CoeffUint64:exact", "CoeffUint64:panic_allowed", "Coeff:exact", "Coeff:panic_allowed", "Coeffs:rows_checked",
 			"Unrank:exact", "Rank:exact", "Rank:panic_allowed", "colex:positions_checked", "Unrank:risky_range_calls", "thresholds:groups", "Rank:boundary_cases_above_MaxInt", "Rank:long_dense_sets(40<k<=25000)", "Unrank:longloop_rank_above_2^53", "Unrank:constructed_from_combination",
+			// process state across calls (state.go)
+			"state:results_held_until_end_of_unit", "state:results_read_again_after_the_next_calls", "state:results_read_again_at_checkpoint",
+			"state:results_overwritten_by_caller_and_compared_for_shared_memory", "state:Unrank_after_caller_overwrote_earlier_results",
+			"state:Unrank(r,k)_directly_after_(r-1,k)", "state:Unrank(r,k)_directly_after_(r+1,k)", "state:Unrank(r,k)_directly_after_the_same_call",
+			"state:Unrank(r,k)_after_(r-1,k)_with_other_k_in_between", "state:Unrank(r,k)_after_a_non-adjacent_rank_same_k", "state:Unrank_same_arguments_again_in_unit",
+			"state:caller_edits_a_result_before_the_next_call", "state:Rank_on_the_slice_Unrank_returned", "state:Rank_through_a_reused_buffer",
+			"state:order:ascending/one-k", "state:order:ascending/one-k/edited", "state:order:descending/one-k", "state:order:random-with-repeats/one-k", "state:order:zigzag/one-k",
+			"state:order:ascending/two-k-alternating", "state:order:ascending/other-k-between-pairs", "state:order:seeded-walk",
+			"state:order:table/ascending", "state:order:table/descending", "state:order:table/random",
+			"state:tables_held_until_end_of_unit", "state:tables_read_again_after_the_next_calls", "state:order:coeffs/descending", "state:order:coeffs/random/edited",
+			"state:Coeffs_after_caller_overwrote_earlier_tables", "state:units_with_ledger_verified_at_end",
 		},
 	})
 }
@@ -52,7 +69,8 @@ func us(v uint64) string { return strconv.FormatUint(v, 10) }
 func is(v int) string    { return strconv.Itoa(v) }
 
 type mon struct {
-	c *engine.Ctx
+	c      *engine.Ctx
+	ledger // results of earlier calls kept until the end of the unit (state.go)
 }
 
 // ---------------------------------------------------------------- binomials
@@ -248,14 +266,18 @@ func (m *mon) unrank(r, k int, want []uint64, roundTrip bool) bool {
 		want = bigcomb.UnrankBig(big.NewInt(int64(r)), k)
 	}
 	var got []int
+	m.lastHeld = nil
 	pi := c.Call("Unrank|"+args, func() { got = comb.Unrank(r, k) })
 	c.Eval(1)
 	detail := map[string]interface{}{"api": "Unrank", "rank": r, "k": k}
+	m.logCall("Unrank", args)
+	m.noteOrder(r, k)
 	if pi != nil {
-		c.Violation("Unrank|panic|"+args+"|"+engine.SiteNoLine(pi.Site), detail, pi.String(), fmt.Sprint(want))
+		c.Violation("Unrank|panic|"+args+"|"+engine.SiteNoLine(pi.Site), m.withHistory(detail), pi.String(), fmt.Sprint(want))
 		return false
 	}
 	if !eqU(got, want) {
+		detail = m.withHistory(detail)
 		c.Violation("Unrank|wrong|"+args, detail, seqString(got), fmt.Sprint(want))
 		return false
 	}
@@ -263,6 +285,10 @@ func (m *mon) unrank(r, k int, want []uint64, roundTrip bool) bool {
 	if k >= 2 && r > 0 {
 		c.NT("un", r, k)
 	}
+	// the result stays on the ledger (the very slice, not a copy) until the end of the unit:
+	// later calls must neither change it nor hand out memory it shares
+	m.recheckRecent(4)
+	m.holdUnrank(args, r, k, got, want)
 	if roundTrip {
 		return m.rank(got, false)
 	}
@@ -273,6 +299,13 @@ func (m *mon) unrank(r, k int, want []uint64, roundTrip bool) bool {
 // roundTrip and the rank was returned, Unrank must give seq back (only when
 // the by-design loop length is acceptable).
 func (m *mon) rank(seq []int, roundTrip bool) bool {
+	return m.rankWith(seq, append([]int(nil), seq...), roundTrip)
+}
+
+// rankWith is rank with the slice that is handed to the library chosen by the
+// caller (a fresh copy, a buffer reused from call to call, the very slice an
+// earlier Unrank returned); in must read the same as seq.
+func (m *mon) rankWith(seq, in []int, roundTrip bool) bool {
 	c := m.c
 	arg := seqString(seq)
 	u := toU(seq)
@@ -291,11 +324,17 @@ func (m *mon) rank(seq []int, roundTrip bool) bool {
 		sum.Add(sum, jv.Exact)
 	}
 	fits := sum != nil && sum.Cmp(bigMaxI) <= 0
-	in := append([]int(nil), seq...)
 	var got int
 	pi := c.Call("Rank|"+arg, func() { got = comb.Rank(in) })
 	c.Eval(1)
 	detail := map[string]interface{}{"api": "Rank", "comb": seq}
+	if m.ledgerLive() {
+		m.logCall("Rank", arg)
+		m.recheckRecent(4)
+		if len(m.log) > 1 {
+			detail["calls_in_unit_up_to_this_one"] = lazyHistory{m, len(m.log)}
+		}
+	}
 	for i := range in {
 		if in[i] != seq[i] {
 			c.Violation("Rank|modifies-argument|"+arg, detail, fmt.Sprint(in), arg)
@@ -389,7 +428,7 @@ func stepsOK(want []uint64, limit int64) bool {
 func run(c *engine.Ctx) {
 	m := &mon{c: c}
 
-	c.Unit("selfcheck", func() {
+	m.unit("selfcheck", func() {
 		if err := bigcomb.SelfCheck(); err != nil {
 			c.Inconclusive("oracle self-check failed: " + err.Error())
 		}
@@ -397,13 +436,13 @@ func run(c *engine.Ctx) {
 	})
 
 	// 0. regression witnesses of the defects found on the pinned tree (fixed part)
-	c.Unit("regression/binomials", func() {
+	m.unit("regression/binomials", func() {
 		for _, w := range [][2]uint64{{4000000, 3}, {80, 19}, {3329022, 3}, {79, 19}} {
 			m.both(w[0], w[1], true)
 		}
 		m.rank([]int{0, 1, 4000000}, false)
 	})
-	c.Unit("regression/unrank-overflow-loop", func() {
+	m.unit("regression/unrank-overflow-loop", func() {
 		m.probe()
 		c.Obs("Unrank:risky_range_calls", 1)
 	})
@@ -411,7 +450,7 @@ func run(c *engine.Ctx) {
 	// 1. every (n,k), n <= 80
 	for lo := 0; lo <= 80; lo += 9 {
 		lo := lo
-		c.Unit(fmt.Sprintf("small/n=%d..%d", lo, lo+8), func() {
+		m.unit(fmt.Sprintf("small/n=%d..%d", lo, lo+8), func() {
 			for n := lo; n < lo+9 && n <= 80; n++ {
 				for k := -2; k <= n+2; k++ {
 					if k >= 0 {
@@ -430,7 +469,7 @@ func run(c *engine.Ctx) {
 	}
 
 	// 2. thresholds
-	c.Unit("thresholds/table", func() {
+	m.unit("thresholds/table", func() {
 		var rows []string
 		for k := uint64(1); k <= 40; k++ {
 			a, aok := bigcomb.LargestN(k, true, bigMaxU)
@@ -449,7 +488,7 @@ func run(c *engine.Ctx) {
 	})
 	for k := uint64(1); k <= 40; k++ {
 		k := k
-		c.Unit(fmt.Sprintf("thresholds/k=%d", k), func() {
+		m.unit(fmt.Sprintf("thresholds/k=%d", k), func() {
 			c.Obs("thresholds:groups", 1)
 			type th struct {
 				n    uint64
@@ -494,7 +533,7 @@ func run(c *engine.Ctx) {
 		})
 	}
 	// beyond the table (k' > 40): everything with n >= 2k' exceeds 2^64-1
-	c.Unit("thresholds/k>40", func() {
+	m.unit("thresholds/k>40", func() {
 		for k := uint64(41); k <= 72; k++ {
 			for _, n := range []uint64{2*k - 1, 2 * k, 2*k + 1, 3 * k, 1 << 20, 1<<63 - 1, 1 << 63, ^uint64(0)} {
 				m.both(n, k, false)
@@ -504,7 +543,7 @@ func run(c *engine.Ctx) {
 	})
 
 	// 3. powers of two +- 1, k <= 3, both sides
-	c.Unit("pow2", func() {
+	m.unit("pow2", func() {
 		ok := true
 		for e := uint(1); e <= 64 && ok; e++ {
 			var base uint64
@@ -524,47 +563,9 @@ func run(c *engine.Ctx) {
 	})
 
 	// 4. Coeffs(n) is Pascal's triangle (rows m = 0..n, entries k <= m/2)
-	c.Unit("coeffs", func() {
+	m.unit("coeffs", func() {
 		for n := 0; n <= 70; n++ {
-			var got [][]int
-			pi := c.Call("Coeffs|n="+is(n), func() { got = comb.Coeffs(n) })
-			if n > 66 {
-				// C(67,33) > MaxInt: what the int table holds there is not defined
-				if pi == nil && len(got) == n+1 {
-					last := got[n]
-					if len(last) > 0 && big.NewInt(int64(last[len(last)-1])).Cmp(bigcomb.Binomial(uint64(n), uint64(n/2))) != 0 {
-						c.Obs("Coeffs:entries_beyond_int_range_wrapped(unjudged)", 1)
-					}
-				}
-				continue
-			}
-			c.Eval(1)
-			detail := map[string]interface{}{"api": "Coeffs", "n": n}
-			if pi != nil {
-				c.Violation("Coeffs|panic|n="+is(n), detail, pi.String(), "Pascal rows 0.."+is(n))
-				continue
-			}
-			if len(got) != n+1 {
-				c.Violation("Coeffs|shape|n="+is(n), detail, fmt.Sprintf("%d rows", len(got)), fmt.Sprintf("%d rows", n+1))
-				continue
-			}
-			bad := false
-			for mm := 0; mm <= n && !bad; mm++ {
-				row := bigcomb.PascalRow(mm)
-				if len(got[mm]) != mm/2+1 {
-					c.Violation("Coeffs|shape|n="+is(n), detail, fmt.Sprintf("row %d has %d entries", mm, len(got[mm])), fmt.Sprintf("%d entries (k <= m/2)", mm/2+1))
-					bad = true
-					break
-				}
-				for k := 0; k <= mm/2; k++ {
-					if !row[k].IsInt64() || row[k].Int64() != int64(got[mm][k]) {
-						c.Violation("Coeffs|wrong|n="+is(n), detail, fmt.Sprintf("row %d entry %d = %d", mm, k, got[mm][k]), row[k].String())
-						bad = true
-						break
-					}
-				}
-				c.Obs("Coeffs:rows_checked", 1)
-			}
+			m.coeffs(n)
 		}
 		c.Obs("exhaustive:Coeffs(n) for n<=66 (every row, every entry)", 1)
 	})
@@ -575,7 +576,7 @@ func run(c *engine.Ctx) {
 	// 6. CombinationsColex position by position, n <= 12
 	for n := 0; n <= 12; n++ {
 		n := n
-		c.Unit(fmt.Sprintf("colex/n=%d", n), func() {
+		m.unit(fmt.Sprintf("colex/n=%d", n), func() {
 			for k := 0; k <= n; k++ {
 				m.colex(n, k)
 			}
@@ -590,7 +591,7 @@ func run(c *engine.Ctx) {
 	if c.Thorough() {
 		maxR, maxK = 20000, 8
 	}
-	c.Unit("unrank/k=0", func() {
+	m.unit("unrank/k=0", func() {
 		m.unrank(0, 0, nil, true)
 		var got []int
 		if pi := c.Call("Unrank|r=5,k=0", func() { got = comb.Unrank(5, 0) }); pi == nil && len(got) == 0 {
@@ -602,7 +603,7 @@ func run(c *engine.Ctx) {
 	for k := 1; k <= maxK; k++ {
 		for lo := 0; lo < maxR; lo += 1000 {
 			k, lo := k, lo
-			c.Unit(fmt.Sprintf("unrank/exhaustive/k=%d/r=%d..", k, lo), func() {
+			m.unit(fmt.Sprintf("unrank/exhaustive/k=%d/r=%d..", k, lo), func() {
 				for r := lo; r < lo+1000 && r < maxR; r++ {
 					if !m.unrank(r, k, nil, true) && c.Stopped() {
 						return
@@ -624,7 +625,7 @@ func run(c *engine.Ctx) {
 
 	// 8b. Rank around the int boundary: the combinations whose rank is MaxInt-3 .. MaxInt+3 and the
 	// last ones with the same largest element (every term may fit while the sum does not)
-	c.Unit("rank/boundary", func() {
+	m.unit("rank/boundary", func() {
 		for k := 1; k <= 40; k++ {
 			L := largestL(uint64(k), bigMaxI)
 			top := new(big.Int).Sub(bigcomb.Binomial(L+1, uint64(k)), big.NewInt(1)) // last rank with largest element L
@@ -662,7 +663,7 @@ func run(c *engine.Ctx) {
 	// unsigned accumulator wraps) and 2^65, also with a few elements knocked out of the run
 	for a := 5; a <= 40; a++ {
 		a := a
-		c.Unit(fmt.Sprintf("rank/long-runs/a=%d", a), func() {
+		m.unit(fmt.Sprintf("rank/long-runs/a=%d", a), func() {
 			rg := engine.NewRng(uint64(31000 + a))
 			two64 := new(big.Int).Lsh(big.NewInt(1), 64)
 			limits := []*big.Int{bigMaxI, two64, new(big.Int).Lsh(big.NewInt(1), 65), new(big.Int).Mul(two64, big.NewInt(5))}
@@ -707,6 +708,9 @@ func run(c *engine.Ctx) {
 	// 9. seeded ranks / sequences
 	seededUnrank(c, m)
 	seededRank(c, m)
+
+	// 10. process-level state across calls: the order of the calls as a dimension, results kept and read again (state.go)
+	stateUnits(c, m)
 }
 
 func (m *mon) colex(n, k int) {
@@ -780,7 +784,7 @@ func seededCoeff(c *engine.Ctx, m *mon) {
 	}
 	for u := 0; u*per < total; u++ {
 		u := u
-		c.Unit(fmt.Sprintf("seeded/coeff/%d", u), func() {
+		m.unit(fmt.Sprintf("seeded/coeff/%d", u), func() {
 			prep()
 			rg := c.Rand("coeff", u)
 			for i := u * per; i < (u+1)*per && i < total; i++ {
@@ -847,7 +851,7 @@ func boundaryUnits(c *engine.Ctx, m *mon) {
 	groups := [][2]int{{3, 3}, {4, 4}, {5, 6}, {7, 12}, {13, 40}, {41, 90}}
 	for _, g := range groups {
 		g := g
-		c.Unit(fmt.Sprintf("unrank/boundary/k=%d..%d", g[0], g[1]), func() {
+		m.unit(fmt.Sprintf("unrank/boundary/k=%d..%d", g[0], g[1]), func() {
 			var cases []urCase
 			seen := map[string]bool{}
 			addR := func(r *big.Int, k int) {
@@ -952,7 +956,7 @@ func seededUnrank(c *engine.Ctx, m *mon) {
 	per := c.Pick(500, 1000)
 	for u := 0; u*per < total; u++ {
 		u := u
-		c.Unit(fmt.Sprintf("seeded/unrank/%d", u), func() {
+		m.unit(fmt.Sprintf("seeded/unrank/%d", u), func() {
 			rg := c.Rand("unrank", u)
 			var cases []urCase
 			for i := u * per; i < (u+1)*per && i < total; i++ {
@@ -989,7 +993,7 @@ func seededRank(c *engine.Ctx, m *mon) {
 	per := c.Pick(2500, 10000)
 	for u := 0; u*per < total; u++ {
 		u := u
-		c.Unit(fmt.Sprintf("seeded/rank/%d", u), func() {
+		m.unit(fmt.Sprintf("seeded/rank/%d", u), func() {
 			rg := c.Rand("rank", u)
 			type rc struct {
 				seq []int
@@ -1130,7 +1134,7 @@ func longLoopUnits(c *engine.Ctx, m *mon) {
 		if x.seeded >= 0 {
 			name = fmt.Sprintf("unrank/longloop/k=%d/seeded-%d", x.k, x.seeded)
 		}
-		c.Unit(name, func() {
+		m.unit(name, func() {
 			w := bigcomb.UnrankBig(x.r, x.k)
 			if !stepsOK(w, stepLimit) {
 				c.Obs("Unrank:longloop_skipped_too_slow", 1)
@@ -1157,7 +1161,7 @@ func denseBoundaryUnits(c *engine.Ctx, m *mon) {
 	for k := 3; k <= 6; k++ {
 		for part := 0; part < 2; part++ {
 			k, part := k, part
-			c.Unit(fmt.Sprintf("unrank/dense-boundary/k=%d/%d", k, part), func() {
+			m.unit(fmt.Sprintf("unrank/dense-boundary/k=%d/%d", k, part), func() {
 				L := largestL(uint64(k), bigMaxI)
 				// smallest l with k! * C(l,k) > 2^53
 				fact := big.NewInt(1)
